@@ -94,6 +94,18 @@ def gen_arrays(ctx):
         j = ctx.rng.choice([0, 0, 1, w // 2, max(0, w - 33), max(0, w - 32), max(0, w - 65), w - 1, ctx.rng.randrange(w)])
         other = list(row); other[j] += ctx.rng.choice([-1, 1])
         out.append(np.array(ctx.rng.choice([[row, other, row], [other, row, other, row], [row, other, other, row, row]])))
+    # wide tables (33..70 columns) with 4..16 rows drawn from two to four base rows that differ in a few columns only: almost every
+    # column is tied, so a sort done column by column must be stable in every pass
+    for _ in range(ctx.n(60, 600)):
+        w = ctx.rng.choice([33, 34, 40, 65, 70]); r = ctx.rng.randint(4, 16); nb = ctx.rng.randint(2, 4)
+        base = [ctx.rng.randint(0, 2) for _ in range(w)]
+        bases = []
+        for _b in range(nb):
+            b_ = list(base)
+            for jj in ctx.rng.sample(range(w), ctx.rng.randint(1, 3)):
+                b_[jj] = b_[jj] + ctx.rng.choice([1, 2, -1])
+            bases.append(b_)
+        out.append(np.array([list(ctx.rng.choice(bases)) for _ in range(r)], dtype=ctx.rng.choice([np.int64, np.int32])))
     # long arrays: lengths just past powers of two, duplicates planted on and around the boundaries 2^k - 1 | 2^k
     for _ in range(ctx.n(6, 40)):
         k = ctx.rng.choice([5, 6, 8, 10, 12, 12, 12, 13] if ctx.rng.random() < 0.8 else [7, 9, 11])
